@@ -298,6 +298,10 @@ fn value_for_adjacent_enum(
     let var_ident = format_ident!("{}", &variant.ident_name.as_ref().unwrap());
     match (&variant.details, content_value) {
         (VariantDetails::Simple, None) => Some(quote! { #scope #type_ident::#var_ident}),
+        (VariantDetails::Item(type_id), Some(content_value)) => {
+            let item = value_for_item(type_space, content_value, type_id, scope)?;
+            Some(quote! { #scope #type_ident::#var_ident ( #item ) })
+        }
         (VariantDetails::Tuple(types), Some(content_value)) => {
             let tup = value_for_tuple(type_space, content_value, types, scope)?;
             Some(variant_tuple_expr(scope, &type_ident, &var_ident, &tup))
